@@ -1067,7 +1067,7 @@ var subDocs = runlog.Register(&runlog.Sub[Case]{
 	Run:  runCase,
 })
 
-func TestFrontEnds(t *testing.T) { subDocs.Check(t, 60000, 3000000) }
+func TestFrontEnds(t *testing.T) { subDocs.Check(t, 40000, 2400000) }
 
 func TestReplay(t *testing.T) { runlog.ReplayMain(t) }
 
